@@ -80,14 +80,20 @@ func rulePanicInventory(c *chk.Ctx) {
 		// constructors: exported package-level functions that build a Server, and the handler package's
 		// exported constructors (construction-time API misuse)
 		if ir.Exported(r) && r.Signature.Recv() == nil && f == r {
-			allocs := false
+			allocs, allocsClient := false, false
 			ir.Instrs(r, func(ins ssa.Instruction) {
 				if al, ok := ins.(*ssa.Alloc); ok && al.Heap && types.Unalias(al.Type().(*types.Pointer).Elem()) == types.Type(c.M.Server) {
 					allocs = true
 				}
+				if al, ok := ins.(*ssa.Alloc); ok && al.Heap && types.Unalias(al.Type().(*types.Pointer).Elem()) == types.Type(c.M.Client) {
+					allocsClient = true
+				}
 			})
 			if allocs {
 				return "documented API misuse: nil assigner at construction"
+			}
+			if allocsClient {
+				return "API misuse at construction of a client (not reachable from a peer's records)"
 			}
 			if inPkg(c, r, c.M.HandlerPkg) && r.Signature.Results().Len() == 1 && isHandlerSig(c, r.Signature.Results().At(0).Type()) {
 				return "documented API misuse: bad function at construction (handler constructor)"
@@ -95,6 +101,12 @@ func rulePanicInventory(c *chk.Ctx) {
 		}
 		if inPkg(c, r, c.M.HandlerPkg) && ir.Exported(r) && f == r && r.Signature.Results().Len() == 1 && isHandlerSig(c, r.Signature.Results().At(0).Type()) {
 			return "documented API misuse: invalid FuncInfo at construction"
+		}
+		// the handler package's exported package-level functions run when handlers are built from Go
+		// functions (before a server exists), never on a peer's records: only the closures they hand
+		// out run per request, and those are not this function
+		if inPkg(c, r, c.M.HandlerPkg) && ir.Exported(r) && f == r && r.Signature.Recv() == nil {
+			return "API misuse while handlers are being built (handler package, not reachable from a peer's records)"
 		}
 		return ""
 	}
@@ -151,6 +163,7 @@ func init() {
 			ruleNullErrorIsAbsent(c)
 			ruleNullIsAbsent(c, d)
 			ruleIDHandling(c)
+			ruleNormaliserExact(c)
 			ruleJSONWhitespace(c)
 			c.Clause("C02-D4")
 			ruleRunGuardServer(c)
